@@ -261,11 +261,6 @@ package secretstore
 //@   for C11
 //@   ensures fresh(result) && result.member == member && result.device == device
 
-//@ extern (*berty.tech/weshnet/v2/pkg/protocoltypes.Group).GetPubKey(m) (pk, err)
-//@   ensures err == nil ==> pk != nil && fresh(pk) && pkv(pk) == bytes(m.PublicKey) && len(m.PublicKey) == 32
-//@   ensures err != nil ==> pk == nil
-//@   ensures len(m.PublicKey) == 32 ==> err == nil
-
 //@ # ----- the ratchet steps (all under the message mutex) -----
 //@ pred ckval(s, g, d) = dck_ck(dsv(s.datastore)[k_ck(g, d)])
 //@ pred ckctr(s, g, d) = dck_ctr(dsv(s.datastore)[k_ck(g, d)])
